@@ -32,8 +32,11 @@ def _run_chunk(args):
     out = []
     stats = dict(runs=0, user_ops=0, engine_calls=0, obs=0, rounds=0, flavours={}, opkinds={}, distinct=set(), samples=[])
     for i in range(start, start + count):
-        rng = random.Random("%s/%s/%d" % (seed, fam, i))
-        case = gen(rng)
+        if getattr(gen, "by_index", False):
+            case = gen(i)            # Stream B: deterministic, independent of the seed
+        else:
+            rng = random.Random("%s/%s/%d" % (seed, fam, i))
+            case = gen(rng)
         case["_id"] = [fam, i]
         if run is not None:
             res = run(case, _W["monitor"])
